@@ -66,11 +66,79 @@ theorem get_is_navigation (row : List (Bytes × Val)) (ks : List Bytes) :
         | none => rfl
         | some sub => exact ih sub
 
+/-- `strings.Split` never returns an empty list: every path, the empty one included, has a first segment. -/
+theorem split_never_empty (p : Bytes) : splitDots p ≠ [] := by
+  induction p with
+  | nil => simp [splitDots]
+  | cons c rest ih =>
+    unfold splitDots; split
+    · simp
+    · split <;> simp
+
+/-- Joining what a path splits into gives back the path — for EVERY path (no hypothesis): with `split_join` the two
+    functions are a bijection between paths and non-empty lists of dot-free segments, so every path names exactly one
+    chain of keys and every such chain is named by exactly one path. -/
+theorem join_split (p : Bytes) : joinDots (splitDots p) = p := by
+  induction p with
+  | nil => simp [splitDots, joinDots]
+  | cons c rest ih =>
+    unfold splitDots; split
+    · rename_i h
+      have hc : c = 0x2E := by simpa using h
+      have hne := split_never_empty rest
+      cases hs : splitDots rest with
+      | nil => exact absurd hs hne
+      | cons k ks =>
+        rw [hs] at ih
+        simp [joinDots, ih, hc]
+    · cases hs : splitDots rest with
+      | nil => exact absurd hs (split_never_empty rest)
+      | cons k ks =>
+        rw [hs] at ih
+        cases ks with
+        | nil => simp [joinDots] at ih ⊢; exact ih
+        | cons k2 ks2 => simp [joinDots] at ih ⊢; exact ih
+
+/-- The segments of a path never contain a dot. -/
+theorem split_segments_have_no_dot (p : Bytes) : ∀ k ∈ splitDots p, (0x2E : UInt8) ∉ k := by
+  induction p with
+  | nil => simp [splitDots]
+  | cons c rest ih =>
+    unfold splitDots; split
+    · intro k hk
+      simp at hk
+      rcases hk with rfl | hk
+      · simp
+      · exact ih k hk
+    · rename_i h
+      have hc : ¬ c = 0x2E := by simpa using h
+      cases hs : splitDots rest with
+      | nil => exact absurd hs (split_never_empty rest)
+      | cons k ks =>
+        rw [hs] at ih
+        intro k' hk'
+        simp at hk'
+        rcases hk' with rfl | hk'
+        · have := ih k (by simp)
+          simp; exact ⟨fun h => hc h.symm, this⟩
+        · exact ih k' (by simp [hk'])
+
 /-- C18, lookup: a dotted path returns what key-by-key navigation returns. -/
 theorem path_lookup_is_navigation (row : List (Bytes × Val)) (ks : List Bytes) (hne : ks ≠ [])
     (hnd : ∀ k ∈ ks, (0x2E : UInt8) ∉ k) :
     getValueAtPath row (joinDots ks) = navigate row ks := by
   rw [getValueAtPath, split_join ks hne hnd, get_is_navigation]
+
+/-- C18, lookup, for EVERY path text: what `GetValueAtPath` returns is key-by-key navigation along the path's own
+    segments (and those segments are the unique dot-free chain the path names). -/
+theorem every_path_is_navigation (row : List (Bytes × Val)) (p : Bytes) :
+    getValueAtPath row p = navigate row (splitDots p) ∧ joinDots (splitDots p) = p ∧
+      splitDots p ≠ [] ∧ ∀ k ∈ splitDots p, (0x2E : UInt8) ∉ k :=
+  ⟨by rw [getValueAtPath, get_is_navigation], join_split p, split_never_empty p,
+   split_segments_have_no_dot p⟩
+
+example : splitDots [0x61, 0x2E, 0x2E, 0x62, 0x2E] = [[0x61], [], [0x62], []] ∧
+    joinDots [[0x61], [], [0x62], []] = [0x61, 0x2E, 0x2E, 0x62, 0x2E] := by decide
 
 /-- A missing segment at any depth reports absence. -/
 theorem missing_segment_is_absent (row : List (Bytes × Val)) (k : Bytes) (rest : List Bytes)
